@@ -463,7 +463,7 @@ class Interp:
                  'isinstance', 'sum', 'enumerate', 'zip', 'print', 'str', 'round', 'type', 'pow', 'any', 'all', 'set'):
             return Builtin(n)
         if n in ('sin', 'cos', 'tan', 'exp', 'sqrt', 'cbrt', 'log', 'fabs', 'pi', 'M_PI', 'NAN', 'INFINITY', 'isnan',
-                 'isinf', 'tgamma', 'floor', 'pow', 'creal', 'cimag', 'cabs', 'csqrt', 'cexp', 'fmin', 'fmax', 'NULL',
+                 'isinf', 'tgamma', 'floor', 'ceil', 'pow', 'creal', 'cimag', 'cabs', 'csqrt', 'cexp', 'fmin', 'fmax', 'NULL',
                  'sizeof', 'copysign', 'hypot', 'prange', 'atan2', 'signbit', 'isfinite', 'log2', 'ldexp', 'frexp', 'DBL_MAX', 'DBL_MIN', 'DBL_EPSILON'):
             return self.external('libc.math', n)
         if n == '__cast__': return Builtin('__cast__')
@@ -655,6 +655,12 @@ class Interp:
             for v in e.values:
                 r = self.eval(v, fr)
                 if isinstance(r, Node) and concrete(r) is None:
+                    try:
+                        if not self.truth(r, ast.If(test=v, body=[], orelse=[], lineno=getattr(v, 'lineno', 0)), fr):
+                            return False
+                        continue
+                    except AnalysisError:
+                        pass
                     # symbolic mask conjunction: product
                     rest = [self.eval(x, fr) for x in e.values[e.values.index(v) + 1:]]
                     out = r
@@ -903,6 +909,8 @@ class Interp:
         if nm == 'tgamma' or nm == 'gamma':
             return X.fn('gamma', to_node(args[0]))
         if nm in ('isnan', 'isinf', 'isfinite'):
+            if args and concrete(args[0]) is not None:
+                return nm == 'isfinite'
             return Opaque(nm)
         if nm == 'isinstance':
             return Opaque('isinstance')
@@ -928,11 +936,14 @@ class Interp:
                                             'min': X.atom('float_min_neg', 'real'), 'tiny': X.atom('float_tiny', 'pos')})
         if nm == 'sizeof':
             return Opaque('sizeof')
-        if nm == 'floor':
+        if nm in ('floor', 'ceil'):
             c = concrete(args[0])
             if c is not None:
                 import math
-                return math.floor(c)
+                return math.floor(c) if nm == 'floor' else math.ceil(c)
+            return Opaque(nm)
+        if nm in ('isnan', 'isinf', 'isfinite') and args and concrete(args[0]) is not None:
+            return nm == 'isfinite'
         raise AnalysisError(f'{fr.mod.where(e)}: unmodelled builtin `{name}`')
 
 
